@@ -7,7 +7,7 @@
  *   drv_merror run TABLE SEED FROM TO
  *       TABLE: text rendering of the configuration table exported by TLC
  *       from MErrorTable.tla, one row per line:
- *         id type rows cols sn st grid kind vec
+ *         id type rows cols sn st grid kind vec ud
  * env: VT_TRACE=<path> (default stdout), SC_TIMEOUT=<seconds per solve>,
  *      SC_TMP=<directory for saved calibration files>
  *
@@ -25,6 +25,7 @@ typedef struct cfg {
     char grid[8];
     char kind[12];
     char vec[8];
+    char ud[8];			/* "-", "c1", "c2": unevenly determined columns */
 } cfg_t;
 
 static int read_row(const char *path, int row, cfg_t *c)
@@ -39,9 +40,9 @@ static int read_row(const char *path, int row, cfg_t *c)
     }
     while (fgets(line, sizeof(line), fp) != NULL) {
 	if (n++ == row) {
-	    if (sscanf(line, "%d %7s %d %d %d %d %7s %11s %7s", &c->id,
+	    if (sscanf(line, "%d %7s %d %d %d %d %7s %11s %7s %7s", &c->id,
 			c->type, &c->r, &c->c, &c->sn, &c->st, c->grid,
-			c->kind, c->vec) == 9)
+			c->kind, c->vec, c->ud) == 10)
 		ok = 0;
 	    break;
 	}
@@ -143,6 +144,55 @@ static void known_set(sc_scn_t *sc, vt_rng_t *rng)
 			full_cell(sc, rng, 0.2, 0.8));
 	    }
 	}
+    }
+}
+
+/*
+ * Unevenly determined column systems (UE14 / E12, two columns, 2 or 3 rows):
+ * column `exact` (1 or 2) sees short, open, match on its own port and the
+ * throughs from its port -- rows + 1 ... exactly 2 rows + 1 equations for
+ * its 2 rows + 1 unknowns; the other column additionally sees `extra` known
+ * reflects on its own port only and is over-determined.
+ */
+static void uneven_set(sc_scn_t *sc, vt_rng_t *rng, int exact)
+{
+    const int other = 3 - exact;
+    const int order = vt_below(rng, 2);
+    const double phi = 6.283185307179586 * vt_unit(rng);
+    const double complex em = 0.7 * (cos(phi) + I * sin(phi));
+
+    /*
+     * The port of the over-determined column has a port match of 0.7 (a
+     * poor but legitimate test port), and its additional reflects are
+     * strong and roughly in anti-phase with it: the relation between a
+     * reading's error and the residual of the linear system, 1 - Gamma Em,
+     * is then far from 1 for every one of them -- the case in which
+     * weighting the residuals correctly matters most.
+     */
+    for (int k = 0; k < sc->nf; ++k) {
+	for (int cc = 0; cc < sc->cols; ++cc)
+	    sc->e[k].em[cc][other - 1][other - 1] = em;
+    }
+    for (int pass = 0; pass < 2; ++pass) {
+	int port = (pass ^ order) ? other : exact;
+
+	sc_single(sc, NULL, port, SC_SHORT);
+	sc_single(sc, NULL, port, SC_OPEN);
+	sc_single(sc, NULL, port, SC_MATCH);
+	if (port == other) {
+	    for (int k = 0; k < 8; ++k) {
+		double rho = 0.7 + 0.3 * vt_unit(rng);
+		double d = 0.5 * (vt_unit(rng) - 0.5) - phi;
+
+		sc_single(sc, NULL, port,
+			sc_scalar(sc, -rho * (cos(d) + I * sin(d))));
+	    }
+	}
+    }
+    sc_through(sc, NULL, 1, 2);
+    if (sc->P == 3) {
+	sc_through(sc, NULL, 1, 3);
+	sc_through(sc, NULL, 2, 3);
     }
 }
 
@@ -479,8 +529,13 @@ static void run_case(const char *table, uint64_t seed, int row)
 	nf = 1 + vt_below(&rng, 3);
     else
 	nf = 1 + vt_below(&rng, 2);
-    sc_init(&sc, (ets_type_t)type, c.r, c.c, nf, &rng, 0.5);
-    known_set(&sc, &rng);
+    if (strcmp(c.ud, "-") != 0) {
+	sc_init(&sc, (ets_type_t)type, c.r, c.c, nf, &rng, 0.5);
+	uneven_set(&sc, &rng, c.ud[1] == '1' ? 1 : 2);
+    } else {
+	sc_init(&sc, (ets_type_t)type, c.r, c.c, nf, &rng, 0.5);
+	known_set(&sc, &rng);
+    }
     /* exact kinds: one third of the scenarios hand over a and b instead
      * of m (noise is declared on m = b / a, so the noisy kinds use m) */
     if ((strcmp(c.kind, "exact") == 0 || strcmp(c.kind, "det") == 0) &&
@@ -491,9 +546,10 @@ static void run_case(const char *table, uint64_t seed, int row)
     make_noise(&sc, &c, &rng, &nz, true_nf, true_tr);
     vt_put("{\"e\":\"Cfg\",\"id\":%d,\"ty\":\"%s\",\"r\":%d,\"c\":%d,"
 	    "\"sn\":%d,\"st\":%d,\"grid\":\"%s\",\"kind\":\"%s\","
-	    "\"vec\":\"%s\",\"nf\":%d,\"pts\":%d,\"nstd\":%d,\"fm\":\"%s\"}",
-	    c.id, c.type, c.r, c.c, c.sn, c.st, c.grid, c.kind, c.vec, nf, nz.n,
-	    sc.nstd, sc.ab ? "ab" : "m");
+	    "\"vec\":\"%s\",\"ud\":\"%s\",\"nf\":%d,\"pts\":%d,\"nstd\":%d,"
+	    "\"fm\":\"%s\"}",
+	    c.id, c.type, c.r, c.c, c.sn, c.st, c.grid, c.kind, c.vec, c.ud, nf,
+	    nz.n, sc.nstd, sc.ab ? "ab" : "m");
     vt_end_line();
 
     memset(&ref, 0, sizeof(ref));
@@ -619,12 +675,15 @@ static void run_case(const char *table, uint64_t seed, int row)
 	     * (always driven and detected), whose reflection equation is
 	     * over-determined by the other reflects on that port */
 	    int cand[SC_MAXSTD], nc = 0;
+	    /* unevenly determined columns: only the over-determined column
+	     * can show an outlier */
+	    const int oport = strcmp(c.ud, "c1") == 0 ? 2 : 1;
 
 	    for (int si = 0; si < sc.nstd; ++si) {
 		const sc_std_t *s = &sc.std[si];
 
 		if ((s->shape == SCS_SINGLE || s->shape == SCS_DOUBLE) &&
-			s->port[0] == 1)
+			s->port[0] == oport)
 		    cand[nc++] = si;
 	    }
 	    if (nc == 0) {		/* mapped sets: diagonal standards */
@@ -638,10 +697,11 @@ static void run_case(const char *table, uint64_t seed, int row)
 	g_pre = NULL;
     }
 report:
-    vt_put("{\"e\":\"Scn\",\"kind\":\"%s\",\"ty\":\"%s\",\"ref\":%d,"
+    vt_put("{\"e\":\"Scn\",\"kind\":\"%s\",\"ty\":\"%s\",\"cls\":\"%s%s\",\"ref\":%d,"
 	    "\"refsetup\":%d,\"wsetup\":%d,\"mset\":%d,\"wret\":%d,"
 	    "\"werr\":\"%s\",\"wcbn\":%d,\"wcat\":\"%s\",\"wone\":%d,"
 	    "\"same\":%d,\"clr\":%d,\"clrmset\":%d,\"bit\":%d}", c.kind, c.type,
+	    c.type, strcmp(c.ud, "-") != 0 ? (c.ud[1] == '1' ? "u1" : "u2") : "",
 	    ref.ret, ref.setup, w.setup, w.mset, w.ret,
 	    vt_errname(w.ret == -1 ? w.err : 0), w.cbn, w.cat, w.one, same,
 	    clr.ret, clr.mset, bit);
